@@ -10,6 +10,16 @@ TRUST = ("TLC explores the stated finite scopes exhaustively; the Python harness
          "enumerated and seeded cases, not for all inputs.")
 
 P = {
+    "C20": dict(
+        spec="Library, Trace_Library",
+        text="Library.tla is the API grain: a workspace of shared objects, one action per public function, the Frame action property "
+             "(only arc removal changes its own arguments) and call signatures that exclude the verbose flag and the history; "
+             "`tlc -simulate` generates call sequences that are executed on real shared objects with bit-level digests of every "
+             "workspace object around every call; returned values are overwritten by the caller afterwards (a cache handing out the "
+             "same object is then visible); every distinct signature is also run in a newly started interpreter; the trace spec "
+             "consumes the log event by event against a memo table seeded with the fresh-interpreter results.",
+        tech="TLA+ API-level specification driving tlc -simulate call sequences + event-by-event trace validation (frame and memo conditions)",
+        ref="5/C20"),
     "C19": dict(
         spec="Score, MC_ArcRemoval, Trace_ArcRemoval",
         text="calculate_intersection_score is transcribed (leaf sets by breadth-first layers; substitution, insertion, deletion "
